@@ -44,6 +44,17 @@ OPS = [
     ("use kept regex", None, "typeof re === 'object' ? re.test('" + LONG + "') : 'nore'", "regex", {}),
     # 244 matcher steps = two deadline polls, well inside every limit: must give its value whatever happened in earlier evals
     ("use kept regex briefly", None, "typeof re === 'object' ? re.test('aaaaaaaaaab') : 'nore'", "value", {}),
+    # objects kept in globals whose built-in methods were already used by an earlier evaluation
+    ("keep array, use map", None, "var ga = [1, 2]; ga.map(function (x) { return x }).length;", "value", {"ga": 1}),
+    ("kept array: callback throws inside try", None,
+     "typeof ga === 'object' ? (function () { try { ga.map(function (x) { throw new Error('e' + x) }) } catch (e) { return 'caught' + e.message } "
+     "try { ga.map(function (x) { return null.p }) } catch (e) { return 'caught' + (e instanceof TypeError) } return 'none' })() : 'noga'",
+     "value", {}),
+    # a few thousand instructions inside callbacks: far below every limit, but enough for a deadline poll
+    ("kept array: long callback", None,
+     "typeof ga === 'object' ? ga.map(function (x) { var s = 0; for (var k = 0; k < 60; k++) { s += k } return s }).length : 'noga'", "value", {}),
+    ("kept array: callback loops forever", "time",
+     "typeof ga === 'object' ? ga.map(function () { while (true) { } }) : (function () { while (true) { } })()", "time", {}),
     ("set a=11", None, ("set", "a", 11), "value", {"a": 11}),
     ("a=12, loop forever inside try", "time", "a = 12; try { while (true) { } } catch (e) { a = -1 } finally { a = -2 }", "time", {"a": 12}),
     ("a=13, recurse forever inside try", "limit", "a = 13; try { (function r() { return 1 + r() })() } catch (e) { a = -1 }", "limit", {"a": 13}),
@@ -64,7 +75,7 @@ EVAL_PROBES = [("f", "typeof f === 'function' ? f() : 'nofn'"), ("zz", "var o = 
 
 def initial(n):
     return tuple(tuple(sorted({"a": None, "b": None, "c": None, "f": None, "zz": None, "yy": None, "pi": None,
-                               "re": None, "cy": None}.items())) for _ in range(n))
+                               "re": None, "cy": None, "ga": None}.items())) for _ in range(n))
 
 
 def enabled(op, cfg):
@@ -198,6 +209,75 @@ def run_history(payload):
     return " || ".join(obs) + "\x00" + " || ".join(exp)
 
 
+# ---------------------------------------------------------------------------------------------
+# residue across contexts of one process: an operation repeated many times elsewhere must leave a fresh context pristine
+
+REPEATS = [1, 101, 250]
+FRESH_PROBES = EVAL_PROBES + [
+    ("deep-join-100", "var dj = []; for (var i = 0; i < 99; i++) { dj = [dj] } ('' + dj).length"),
+    ("nested-callbacks", "[1, 2].map(function (x) { return [x].map(function (y) { return y * 2 })[0] }).join()"),
+    ("regex", "/^(a+)+b/.test('aaaab') + '|' + 'xay'.replace(/a/, function (m) { return m + m })"),
+    ("search-string-pattern", "'xxab'.search('a+b') + '|' + 'xxab'.match('(a)(b)').length"),
+    ("stringify-nested", "JSON.stringify({a: [1, {b: [2, {c: 3}]}]})"),
+    ("recursion-60", "(function r(n) { return n ? 1 + r(n - 1) : 0 })(60)"),
+    ("sort", "[3, 1, 2].sort(function (a, b) { return a - b }).join()"),
+    ("eval-in-eval", "(1, eval)('(1, eval)(\"1 + 1\")')"),
+    ("try-finally", "var tf = []; try { try { throw 1 } finally { tf.push('f') } } catch (e) { tf.push('c') } tf.join()"),
+]
+
+
+def run_repeat(payload):
+    from mc.props.common import engine
+    e = engine()
+    cfg = CONFIGS[payload["cfg"]]
+
+    def fresh():
+        e.CLOCK.reset("poll")
+        return e.Context(time_limit=cfg["tl"], memory_limit=cfg["ml"])
+
+    def probes():
+        c = fresh()
+        o = []
+        for _, src in FRESH_PROBES:
+            e.CLOCK.reset("poll")
+            try:
+                o.append(repr(c.eval(src)))
+            except Exception as ex:  # noqa: BLE001
+                o.append("raises " + type(ex).__name__)
+        return ",".join(o)
+
+    before = probes()
+    name, need, src, cls, upd = OPS[payload["op"]]
+    shared = fresh() if payload["same"] else None
+    for _ in range(payload["n"]):
+        c = shared if shared is not None else fresh()
+        e.CLOCK.reset("poll")
+        try:
+            if isinstance(src, tuple):
+                c.set(src[1], src[2])
+            else:
+                c.eval(src)
+        except e._errors.JSError:
+            pass
+        except Exception as ex:  # noqa: BLE001
+            return "operation raises host " + type(ex).__name__ + "\x00" + before
+    return probes() + "\x00" + before
+
+
+def _repeat_cases():
+    out = []
+    for op in range(len(OPS)):
+        for ci, cfg in enumerate(CONFIGS):
+            if not enabled(op, cfg) or (ci == 2 and OPS[op][1] is None):
+                continue
+            for n in REPEATS:
+                for same in (False, True):
+                    out.append(("%s repeated %d times in %s (limits %s), then a fresh context is probed"
+                                % (OPS[op][0], n, "one other context" if same else "fresh contexts", cfg),
+                                {"op": op, "n": n, "same": same, "cfg": ci, "h": [(0, op)] * 2}))
+    return out
+
+
 def label(h):
     return " ; ".join("tick" if op == TICK else "ctx%d: %s" % (ci, OPS[op][0]) for ci, op in h)
 
@@ -230,7 +310,12 @@ _plan = {"quick": [(2, 3)], "thorough": [(2, 4), (3, 3)]}
 
 
 def spaces(tier, seed, all_strata=False):
-    out = []
+    out = [Space("c12_repeat", "mc.props.c12:run_repeat", _repeat_cases, oracle="inline", batch=4, watchdog=120,
+                 nontrivial=lambda cid, p, exp: True, bound="ops x {1,101,250} x 2 x configs", differential=True,
+                 rule="every operation repeated 1 / 101 / 250 times, in fresh contexts or in one other context, under each limit "
+                      "configuration that enables it; afterwards a brand-new context must answer %d probes (built-in state, deep join at "
+                      "the legal depth, nested callbacks, regex APIs with string patterns, nested eval, try/finally) exactly as a "
+                      "brand-new context did before" % len(FRESH_PROBES))]
     todo = _plan["thorough"] + _plan["quick"] if all_strata else _plan[tier]
     for n, depth in todo:
         out.append(_sp("c12_bfs_%dctx_d%d" % (n, depth), (lambda n=n, depth=depth: _cases(n, depth)),
@@ -246,6 +331,8 @@ def spaces(tier, seed, all_strata=False):
 def extra_coverage(res):
     st = tr = 0
     for sp in res.per_space:
+        if sp["space"] == "c12_repeat":
+            continue
         parts = sp["space"].split("_")
         n, depth = int(parts[2][0]), int(parts[3][1:])
         s, t = _explored(n, depth)
@@ -257,6 +344,11 @@ def extra_coverage(res):
 
 
 def signature(sp, cid, payload, exp, obs):
+    if sp.name == "c12_repeat":
+        eo, oo = exp.split(","), obs.split(",")
+        bad = [FRESH_PROBES[i][0] for i in range(min(len(eo), len(oo), len(FRESH_PROBES))) if eo[i] != oo[i]] or [obs[:40]]
+        return "repeat|%s|%s" % (OPS[payload["op"]][0], "+".join(bad)), (
+            "after `%s` ran many times elsewhere, a fresh context answers differently: %s" % (OPS[payload["op"]][0], ", ".join(bad)))
     eo, oo = exp.split(" || "), obs.split(" || ")
     for i, (a, b) in enumerate(zip(eo, oo)):
         if a != b:
